@@ -83,9 +83,20 @@ def body(run):
         run.count_case(('g', k), nblk > 1, None)
         d = same_stats(many['stats'], one['stats'], 1e-4)     # float32 block sums of non-integer data: accumulation precision
         if d:
+            # the GDAL sliver of finding D10 also reaches compare: does some block see a processing pixel valid that the whole-window
+            # down-sampling sees invalid (or vice versa)?  (reference grid, zero overlap = what compare uses)
+            cause = 'other'
+            if not forced and one['proc_crs'] == 'ref':
+                try:
+                    from harness import impl_e2e as e2e
+                    sl = e2e.block_x_validity_diffs(pair['src_fn'], pair['ref_fn'], mbm, (1, 1), overlap=(0, 0))
+                    if sl and one['stats']['Mean']['n'] != many['stats']['Mean']['n']:
+                        cause = 'validity-sliver'
+                except Exception:
+                    cause = 'other'
             run.add_violation('comparison statistics depend on block size: ' + d,
                               dict(geom=g.describe(), proc_crs=proc, max_block_mem=mbm, blocks=nblk, one=one['stats'], many=many['stats']),
-                              signature=dict(kind='compare-blocks', forced_fine_grid=bool(forced)))
+                              signature=dict(kind='compare-blocks', forced_fine_grid=bool(forced), cause=cause))
     run.cov['rule'] = ('real comparisons of file pairs whose processing-grid pixel pairs are known exactly (same grid; source 2x / 4x finer, aligned, '
                        'integer data so that float32 sums are exact), 1..3 bands with band selections, 1..20 blocks, 1..4 threads: N exact, r2 / RMSE^2 / '
                        'rRMSE^2 to 1e-8 against the Gallina model and against an exact-fraction oracle, and against the single-block run; plus '
